@@ -279,6 +279,33 @@ pub fn generate(rng: &mut Rng, tier: Tier) -> Plan {
             }
         }
     }
+    // two quotes whose variable names differ only in letter case (spot / SPOT): different
+    // variables
+    if !float_only && rng.chance(0.05) {
+        let donors: Vec<String> = quotes
+            .iter()
+            .filter_map(|q| match &q.num {
+                Num::D { g, .. } | Num::D2 { g, .. } => g.first().map(|(n, _)| n.clone()),
+                _ => None,
+            })
+            .collect();
+        if let Some(name) = donors.first() {
+            let variant = if name.to_uppercase() != *name { name.to_uppercase() } else { name.to_lowercase() };
+            if variant != *name {
+                for q in quotes.iter_mut().rev() {
+                    if let Num::D { g, .. } | Num::D2 { g, .. } = &mut q.num {
+                        if !g.is_empty()
+                            && !g.iter().any(|(n, _)| n == &variant)
+                            && !g.iter().any(|(n, _)| n == name)
+                        {
+                            g[0].0 = variant.clone();
+                            break;
+                        }
+                    }
+                }
+            }
+        }
+    }
     // a quote that is a function of the market's own tag for that pair (the live rate fed
     // back in, scaled or curved): ONE variable named exactly fx_<lhs><rhs>, non-unit
     // sensitivity, own curvature
@@ -1085,9 +1112,46 @@ fn probe(m: &Market, ctx: &str, step: usize, obs: &mut Obs) -> Result<(), Fail> 
             }
 
             // ---- gradient: closed form  d cross/dx = cross * sum_k s_k q_k,x / q_k
+            // (on every name; for numbers on thousands of variables on the positions where an
+            // index width or a block size could matter, plus a spread)
+            let check_idx: Vec<usize> = if model_names.len() <= 2000 {
+                (0..model_names.len()).collect()
+            } else {
+                obs.count("probe.gradient_on_a_sample_of_names");
+                let mm = model_names.len();
+                let mut pick: BTreeSet<usize> = BTreeSet::new();
+                for k in [0usize, 1, 2, 127, 128, 255, 256, 257, 1023, 1024, 4095, 4096, 32_767, 32_768, 32_769, 65_534, 65_535, 65_536, 65_537, 131_071, 131_072] {
+                    if k < mm {
+                        pick.insert(k);
+                    }
+                }
+                for k in 0..40 {
+                    pick.insert((k * 7919 + i * 31 + j * 17 + step * 101) % mm);
+                }
+                pick.insert(mm - 1);
+                pick.insert(mm - 2);
+                // positions in NAME order differ from positions in the quote's own list: also
+                // take the quote-list positions
+                for (q, _) in &qd {
+                    for k in [0usize, 255, 256, 32_767, 32_768, 65_534, 65_535, 65_536, 65_537] {
+                        if let Some((nm, _)) = q.g.get(k) {
+                            if let Ok(xi) = model_names.binary_search(nm) {
+                                pick.insert(xi);
+                            }
+                        }
+                    }
+                    if let Some((nm, _)) = q.g.last() {
+                        if let Ok(xi) = model_names.binary_search(nm) {
+                            pick.insert(xi);
+                        }
+                    }
+                }
+                pick.into_iter().collect()
+            };
             let got = grad_of(&num, &model_names);
-            let mut lx: Vec<Em> = Vec::with_capacity(model_names.len());
-            for x in &model_names {
+            let mut lx: Vec<Em> = vec![Em::zero(); model_names.len()];
+            for xi in &check_idx {
+                let x = &model_names[*xi];
                 let mut l = Em::zero();
                 for (q, sgn) in &qd {
                     let c = qd_grad(q, x);
@@ -1096,23 +1160,23 @@ fn probe(m: &Market, ctx: &str, step: usize, obs: &mut Obs) -> Result<(), Fail> 
                         l = if *sgn > 0 { l.add(t) } else { l.sub(t) };
                     }
                 }
-                lx.push(l);
+                lx[*xi] = l;
             }
             // natural scale of each variable's sensitivity, over ALL quotes of the market:
             // an off-path (true zero) entry may carry rounding residue relative to it, and
             // so may any entry if the implementation reaches a cross through a detour.
             let all_qd: Vec<QD> = model.quotes.iter().map(|q| quote_data(q, order)).collect();
-            let ax: Vec<f64> = model_names
-                .iter()
-                .map(|x| {
-                    all_qd
-                        .iter()
-                        .map(|q| (qd_grad(q, x) / q.v).abs())
-                        .sum::<f64>()
-                })
-                .collect();
+            let mut ax: Vec<f64> = vec![0.0; model_names.len()];
+            for xi in &check_idx {
+                let x = &model_names[*xi];
+                ax[*xi] = all_qd
+                    .iter()
+                    .map(|q| (qd_grad(q, x) / q.v).abs())
+                    .sum::<f64>();
+            }
             let cabs = cross.x.abs();
-            for (xi, x) in model_names.iter().enumerate() {
+            for xi in check_idx.iter().cloned() {
+                let x = &model_names[xi];
                 let mut want = cross.mul(lx[xi]);
                 want.m += 4.0 * cabs * ax[xi];
                 if !want.close(got[xi]) {
@@ -1278,7 +1342,10 @@ fn probe(m: &Market, ctx: &str, step: usize, obs: &mut Obs) -> Result<(), Fail> 
             // the same product evaluated step by step in the reference AD
             // (name-keyed maps: on markets of a hundred and more variables only the short
             // paths are affordable; the closed form above covers every pair)
-            if (i * 7 + j * 3 + step) % 5 == 0 && i != j && (model_names.len() <= 60 || path.len() <= 2) {
+            if (i * 7 + j * 3 + step) % 5 == 0
+                && i != j
+                && (model_names.len() <= 60 || (path.len() <= 2 && model_names.len() <= 400))
+            {
                 let mut r = R::exact(1.0);
                 for (k, sgn) in path {
                     let q = quote_data(&model.quotes[*k], order);
@@ -1879,6 +1946,93 @@ pub fn shrink(plan: &Plan) -> Vec<Plan> {
     out
 }
 
+/// Very large but otherwise ordinary histories (contents are a fixed function of `which`
+/// and a salt): 0 = a first-order quote on 70,000 variables next to a small one; 1 = update
+/// lists of 40,000 and of 70,001 ticks over three pairs; 2 = a second-order chain of six
+/// currencies whose quotes carry 300 private variables each, with a refused update.
+fn big_plan(which: usize, salt: u64) -> Plan {
+    let mut rng = Rng::new(salt);
+    let q = |l: &str, r: &str, num: Num| Quote {
+        lhs: l.into(),
+        rhs: r.into(),
+        num,
+        settle: None,
+        tod: None,
+    };
+    let many = |prefix: &str, n: usize, second: bool, v: f64| -> Num {
+        let g: Vec<(String, Fx)> = (0..n)
+            .map(|i| (format!("{}{}", prefix, i), Fx::new(0.25 + 0.125 * ((i * 7) % 13) as f64)))
+            .collect();
+        if second {
+            let mut h = Vec::new();
+            for i in 0..n.min(40) {
+                h.push((i, i, Fx::new(0.1 * v)));
+                if i + 1 < n {
+                    h.push((i, i + 1, Fx::new(-0.05 * v)));
+                }
+            }
+            Num::D2 { v: Fx::new(v), g, h }
+        } else {
+            Num::D { v: Fx::new(v), g }
+        }
+    };
+    match which {
+        0 => {
+            let quotes = vec![
+                q("eur", "usd", many("v", 70_000, false, 1.0836)),
+                q("usd", "jpy", Num::D {
+                    v: Fx::new(151.25),
+                    g: vec![("v3".into(), Fx::new(2.0)), ("w".into(), Fx::new(0.5)), ("v69999".into(), Fx::new(-1.5))],
+                }),
+            ];
+            let steps = vec![
+                Step::Update { target: 0, items: vec![q("usd", "jpy", Num::D { v: Fx::new(150.0 + rng.unit()), g: vec![("w".into(), Fx::new(1.0))] })] },
+                Step::SetOrder { target: 0, order: 1 },
+            ];
+            Plan { setup: Setup { quotes, base: None, share_vars: false }, steps }
+        }
+        1 => {
+            let quotes = vec![
+                q("eur", "usd", Num::F(Fx::new(1.08))),
+                q("usd", "jpy", Num::F(Fx::new(151.0))),
+                q("gbp", "usd", Num::F(Fx::new(1.27))),
+            ];
+            let batch = |rng: &mut Rng, n: usize| -> Vec<Quote> {
+                (0..n)
+                    .map(|i| match i % 3 {
+                        0 => q("eur", "usd", Num::F(Fx::new(1.05 + 0.06 * rng.unit()))),
+                        1 => q("usd", "jpy", Num::F(Fx::new(145.0 + 10.0 * rng.unit()))),
+                        _ => q("gbp", "usd", Num::F(Fx::new(1.2 + 0.1 * rng.unit()))),
+                    })
+                    .collect()
+            };
+            let steps = vec![
+                Step::Update { target: 0, items: batch(&mut rng, 40_000) },
+                Step::SetOrder { target: 0, order: 1 },
+                Step::Update { target: 0, items: batch(&mut rng, 70_001) },
+            ];
+            Plan { setup: Setup { quotes, base: Some("usd".into()), share_vars: false }, steps }
+        }
+        _ => {
+            let c = ["eur", "usd", "jpy", "gbp", "chf", "cad"];
+            let quotes: Vec<Quote> = (0..5)
+                .map(|i| q(c[i], c[i + 1], many(&format!("q{}_", i), 300, true, 0.8 + 0.3 * i as f64)))
+                .collect();
+            let mut late = quotes[2].clone();
+            late.settle = Some(19_000);
+            late.num = late.num.with_value(1.5);
+            let mut ok = quotes[1].clone();
+            ok.num = ok.num.with_value(1.2 + 0.1 * rng.unit());
+            let steps = vec![
+                Step::SetOrder { target: 0, order: 2 },
+                Step::Update { target: 0, items: vec![late] },
+                Step::Update { target: 0, items: vec![ok] },
+            ];
+            Plan { setup: Setup { quotes, base: None, share_vars: false }, steps }
+        }
+    }
+}
+
 pub struct C10;
 
 impl Scenario for C10 {
@@ -1893,8 +2047,26 @@ impl Scenario for C10 {
         }
     }
     fn unit(seed: u64, tier: Tier, unit: u64, sink: &mut dyn FnMut(Plan) -> bool) {
+        // the size ladder: three fixed very large histories, spread over the unit range
+        let stride = (Self::units(tier) / 17).max(1);
+        if unit % stride == 13 && unit / stride < 3 {
+            sink(big_plan((unit / stride) as usize, mix(seed, "C10-big", unit)));
+            return;
+        }
         let mut rng = Rng::new(mix(seed, "C10", unit));
         sink(generate(&mut rng, tier));
+    }
+    fn budget(plan: &Plan) -> u64 {
+        let big_vars = plan.setup.quotes.iter().any(|q| match &q.num {
+            Num::D { g, .. } | Num::D2 { g, .. } => g.len() > 100,
+            _ => false,
+        });
+        let big_batch = plan.steps.iter().any(|s| matches!(s, Step::Update { items, .. } if items.len() > 1000));
+        if big_vars || big_batch {
+            30
+        } else {
+            1
+        }
     }
     fn execute(plan: &Plan, obs: &mut Obs) -> Result<(), Fail> {
         execute(plan, obs)
